@@ -4,7 +4,7 @@
 EXTENDS Binning, Json
 CONSTANTS LenC
 VARIABLES cfg, step
-Fields == <<"kind", "ds", "s", "span", "bins", "stat", "missing", "oob", "arr">>
+Fields == <<"kind", "ds", "s", "span", "bins", "stat", "missing", "oob", "exact", "arr">>
 DataW(ds) == CASE ds = 1 -> << <<1, 3, 2>>, <<3, 4, 5>>, <<6, 9, 1>> >>
                [] ds = 2 -> << <<0, 2, 3>>, <<8, 10, 4>> >>
                [] ds = 3 -> << <<2, 8, 7>> >>
@@ -14,6 +14,7 @@ DataB(ds) == CASE ds = 1 -> << <<1, 6, 1>>, <<2, 4, 2>>, <<2, 4, 3>>, <<8, 9, 4>
 Dom(f) == CASE f = "kind" -> {"bw", "bb"} [] f = "ds" -> {1, 2, 3}
             [] f = "s" -> (-2)..(LenC - 1) [] f = "span" -> 1..(LenC + 3)
             [] f = "bins" -> 0..(LenC + 3)             \* 0 = per-base output
+            [] f = "exact" -> {1, 1, 0}     \* 0: the default mode of values(): bins interpolated from the closest zoom level when one is coarse enough
             [] f = "arr" -> {0, 1}          \* 1: the caller supplies a (dirty, reused) output array
             [] f = "stat" -> {"mean", "min", "max"} [] f = "missing" -> {0, -1, 5, 99} [] f = "oob" -> {0, -1, 5, 99}
 Init == cfg = <<>> /\ step = 1
@@ -25,5 +26,5 @@ Next == /\ step <= Len(Fields)
 Done == step > Len(Fields)
 Emit == (Done /\ cfg[3] + cfg[4] <= LenC + 2) =>
           PrintT(<<"REPLAY", ToJson([kind |-> cfg[1], ds |-> cfg[2], items |-> IF cfg[1] = "bw" THEN DataW(cfg[2]) ELSE DataB(cfg[2]), len |-> LenC,
-                                     s |-> cfg[3], e |-> cfg[3] + cfg[4], bins |-> cfg[5], stat |-> cfg[6], missing |-> cfg[7], oob |-> cfg[8], arr |-> cfg[9]])>>)
+                                     s |-> cfg[3], e |-> cfg[3] + cfg[4], bins |-> cfg[5], stat |-> cfg[6], missing |-> cfg[7], oob |-> cfg[8], exact |-> cfg[9], arr |-> cfg[10]])>>)
 =============================================================================
